@@ -138,14 +138,18 @@ def make_body(job):
     t.create('/svc'); t.create('/svc/member_A', member_blob(0))
     view = {}; log = []; raised = []; aba = []; spans = []
     will_raise = job['raising']
+    raise_at = choose('raising_callback_index', 3) if will_raise else -1      # which delivered notification raises
+    ncb = [0]
+    def maybe_raise():
+      ncb[0] += 1
+      if will_raise and ncb[0] - 1 == raise_at:
+        raised.append(1); cover('callback-raises'); raise RuntimeError('consumer bug')
     def on_join(m):
       log.append(('join', m.name)); view[m.name] = m
-      if will_raise and len(raised) == 0:
-        raised.append(1); cover('callback-raises'); raise RuntimeError('consumer bug')
+      maybe_raise()
     def on_leave(m):
       log.append(('leave', m.name)); view.pop(m.name, None)
-      if will_raise and len(raised) == 0:
-        raised.append(1); cover('callback-raises'); raise RuntimeError('consumer bug')
+      maybe_raise()
     ss = ServerSet(zk, '/svc', on_join, on_leave, lambda n: n.startswith('member_'))
     initial = [m.name for m in ss.get_members()]
     gevent.sleep(3)
